@@ -103,7 +103,7 @@ class PythonParserGenerator(IndentPrintMixin, NodeWalker):
 
         self.print(FOOTER(name=basename))
 
-    def walk_Rule(self, rule: g.Rule):
+    def walk_Rule(self, rule: g.Rule, exp: g.Model | None = None):
         def param_repr(p):
             if isinstance(p, int | float):
                 return str(p)
@@ -144,10 +144,11 @@ class PythonParserGenerator(IndentPrintMixin, NodeWalker):
                 \ndef {name}(self, {self.ctx_stack[0]}: Ctx) -> Any:
             """)
         with self.indent():
-            self.print(self.walk(rule.exp))
+            self.print(self.walk(exp if exp is not None else rule.exp))
 
     def walk_BasedRule(self, rule: g.BasedRule):
-        self.walk_Rule(rule)
+        # NOTE: a based rule parses the base rule's expression and then its own
+        self.walk_Rule(rule, exp=rule.rhs)
 
     def walk_Call(self, call: g.Call):
         name = safe_name(call.name)
